@@ -24,6 +24,7 @@ import (
 	"os"
 	"path/filepath"
 	"regexp"
+	"sort"
 	"strconv"
 	"strings"
 )
@@ -787,12 +788,27 @@ func renderTopics(codeFile string, topics []topic, results []*topicOut, fnOwner,
 // ---------------------------------------------------------------- helpers followed automatically
 
 // A whitelisted function may call UNEXPORTED helpers that are not on the whitelist: a method
-// of the same receiver called on the receiver variable (`b.appendMatch(n, off)`), or a package
-// level function (`hashBitsLimit(cfg.InputLen, 24)`).  "Extract a helper" is the most common
-// harmless refactoring, so such callees are put on the whitelist of the calling topic before
+// of the same receiver called on the receiver variable (`b.appendMatch(n, off)`), a package
+// level function (`hashBitsLimit(cfg.InputLen, 24)`), or an unexported method called on some OTHER
+// value — a field of the receiver, an embedded struct, a local pointer to one of them
+// (`h1.put(i, x)` with `h1 := &f.h1`, `s.hashDictionary.rehash(…)`).  "Extract a helper" is the most
+// common harmless refactoring, so such callees are put on the whitelist of the calling topic before
 // the translation starts (transitively).  They have to be in the subset like every other
 // function — otherwise the topic is refused as before.  In the generated code they carry the
 // simp attribute `gen_helper`, so the proofs can unfold them without knowing their names.
+//
+// This pass runs before the translator has types, so for a method called on another value the
+// receiver type is not known here: every struct type that is REACHABLE from the receiver type or a
+// parameter type of the calling function through fields (embedded or named, through `*` and `[]`)
+// and declares an unexported method of that name is a candidate, and all candidates are followed
+// (normally there is exactly one; a value of an unreachable type cannot occur in the function without
+// a call that produces it, and results of calls are not followed).  A superfluous candidate only costs
+// its translation; if it is outside the subset the topic is refused, which is what happened to the
+// call before this rule existed.  Which method is really
+// called, whether the call mutates its receiver, and the aliasing rules (code_ptralias.go,
+// code_parse.go: a method that writes through its receiver while a parameter may alias the
+// receiver's memory is refused) are decided later by the translator with types, as for every
+// whitelisted method.
 func unexported(name string) bool {
 	return name != "" && name != "_" && !ast.IsExported(name)
 }
@@ -831,6 +847,19 @@ func (c *codegen) helperCallees(k fnKey, known map[fnKey]bool, out *[]fnKey) {
 					}
 				}
 				add(h)
+			} else if unexported(f.Sel.Name) && rootIdent(f.X) != nil {
+				// a method of another value (field, embedded struct, local pointer): all candidates by name
+				var cands []fnKey
+				reach := c.reachableStructs(fd)
+				for h := range c.fns {
+					if h.recv != "" && h.name == f.Sel.Name && reach[h.recv] {
+						cands = append(cands, h)
+					}
+				}
+				sort.Slice(cands, func(i, j int) bool { return cands[i].recv < cands[j].recv })
+				for _, h := range cands {
+					add(h)
+				}
 			}
 		case *ast.Ident:
 			if !unexported(f.Name) {
@@ -852,4 +881,53 @@ func (c *codegen) helperCallees(k fnKey, known map[fnKey]bool, out *[]fnKey) {
 		}
 		return true
 	})
+}
+
+// reachableStructs: the struct types reachable from the receiver and parameter types of fd through
+// fields (Go spellings; `*T`, `[]T`, `[n]T` count as T).
+func (c *codegen) reachableStructs(fd *ast.FuncDecl) map[string]bool {
+	strip := func(t string) string {
+		for {
+			switch {
+			case strings.HasPrefix(t, "*"):
+				t = t[1:]
+			case strings.HasPrefix(t, "[]"):
+				t = t[2:]
+			case strings.HasPrefix(t, "["):
+				if i := strings.Index(t, "]"); i >= 0 {
+					t = t[i+1:]
+					continue
+				}
+				return t
+			default:
+				return t
+			}
+		}
+	}
+	seen := map[string]bool{}
+	var visit func(t string)
+	visit = func(t string) {
+		t = strip(t)
+		if seen[t] {
+			return
+		}
+		if _, ok := c.structs[t]; !ok {
+			return
+		}
+		seen[t] = true
+		for _, f := range c.structs[t] {
+			visit(f.typ)
+		}
+	}
+	fields := func(fl *ast.FieldList) {
+		if fl == nil {
+			return
+		}
+		for _, f := range fl.List {
+			visit(c.src(f.Type))
+		}
+	}
+	fields(fd.Recv)
+	fields(fd.Type.Params)
+	return seen
 }
